@@ -101,18 +101,6 @@ Proof.
   apply andb_true_iff in F as [Fa F]. rewrite (H _ Fa), (IHl H F). auto.
 Qed.
 
-(* A cleaner characterisation. *)
-Lemma other_spec_false : forall us me k,
-  other_at_ue1 us me k = false ->
-  forall n p, nth_error us n = Some p -> is_ue1 p = true -> me = Some (k + n)%nat.
-Proof.
-  induction us as [|h t IH]; intros me k H [|n] p Hn Hp; cbn in *; try discriminate.
-  - inversion Hn; subst. apply orb_false_iff in H as [H1 _]. rewrite Hp in H1. cbn in H1.
-    destruct me as [i|]; cbn in H1; try discriminate.
-    apply negb_false_iff in H1. apply Nat.eqb_eq in H1. subst. f_equal. lia.
-  - apply orb_false_iff in H as [_ H2]. rewrite (IH me (S k) H2 n p Hn Hp). f_equal. lia.
-Qed.
-
 Lemma existsb_witness : forall {A} (P : A -> bool) l, existsb P l = true -> exists n x, nth_error l n = Some x /\ P x = true.
 Proof.
   induction l; cbn; intros H; try discriminate.
@@ -121,26 +109,10 @@ Proof.
   - cbn in H. destruct (IHl H) as (n & x & Hn & Hx). exists (S n), x; auto.
 Qed.
 
-Lemma no_ue1_if_me_not : forall us i p,
-  other_at_ue1 us (Some i) 0 = false -> nth_error us i = Some p -> is_ue1 p = false -> existsb is_ue1 us = false.
-Proof.
-  intros us i p H Hn Hp. destruct (existsb is_ue1 us) eqn:E; auto.
-  destruct (existsb_witness _ _ E) as (n & x & Hx & Hux).
-  pose proof (other_spec_false us (Some i) 0 H n x Hx Hux) as Heq. inversion Heq; subst.
-  cbn in Hn. rewrite Hx in Hn. inversion Hn; subst. congruence.
-Qed.
-
-Lemma no_ue1_none : forall us, other_at_ue1 us None 0 = false -> existsb is_ue1 us = false.
-Proof.
-  intros us H. destruct (existsb is_ue1 us) eqn:E; auto.
-  destruct (existsb_witness _ _ E) as (n & x & Hx & Hux).
-  pose proof (other_spec_false us None 0 H n x Hx Hux). discriminate.
-Qed.
-
 (* ---------------- the invariant ---------------- *)
 Definition is_rstored (r : rpc) : bool := match r with RStored => true | _ => false end.
 Definition not_ridle (r : rpc) : bool := match r with RIdle => false | _ => true end.
-Definition is_ub3 (p : upc) : bool := match p with UB3 => true | _ => false end.
+Definition is_ub3 (p : upc) : bool := match p with UB3 | UE2 => true | _ => false end.
 
 Definition Inv (s : fstate) : Prop :=
   f_inflight s = cntP counted (f_users s)
@@ -195,8 +167,6 @@ Proof.
   rewrite (cntP_set_nth counted _ _ _ _ Hn). lia.
 Qed.
 
-Lemma inv_window : forall s w, Inv s -> Inv (with_window s w).
-Proof. intros s w H; exact H. Qed.
 
 Lemma user_step_inv : forall s i, Inv s -> Inv (user_step s i).
 Proof.
@@ -212,9 +182,12 @@ Proof.
     + eapply inv_with_user_close; eauto; cbn; lia.
     + eapply inv_with_user; eauto; cbn; try lia; try discriminate; try (right; right; right; left; lia).
   - destruct (f_inflight s - 1 =? 0)%Z eqn:Z0; eapply inv_with_user; eauto; cbn; try lia; try discriminate; auto; try (right; right; right; left; lia).
-  - destruct (f_retired s) eqn:R.
+  - destruct (f_retired s) eqn:R; eapply inv_with_user; eauto; cbn; try lia; try discriminate; auto;
+      try (right; right; right; right; auto).
+  - assert (R : f_retired s = true) by (apply I4; eapply existsb_nth; eauto).
+    destruct (f_inflight s =? 0)%Z eqn:Z0.
     + eapply inv_with_user_close; eauto; cbn; lia.
-    + eapply inv_with_user; eauto; cbn; try lia; try discriminate; auto; try (right; right; right; right; auto).
+    + eapply inv_with_user; eauto; cbn; try lia; try discriminate; try (right; right; right; left; lia).
   - auto.
   - auto.
 Qed.
@@ -248,8 +221,8 @@ Proof.
     unfold Inv; cbn [f_inflight f_retired f_closed f_users f_rets].
     rewrite !existsb_app1. cbn [not_ridle is_rstored]. rewrite !orb_false_r.
     repeat split; auto.
-  - apply user_step_inv, inv_window, I.
-  - apply ret_step_inv, inv_window, I.
+  - apply user_step_inv, I.
+  - apply ret_step_inv, I.
 Qed.
 
 Lemma inv_init : Inv finit.
@@ -287,146 +260,96 @@ Proof.
     congruence.
 Qed.
 
-(* ---------------- no close while in flight, unless endUse was interleaved ---------------- *)
+(* ---------------- closed only when retired, with nothing in flight ---------------- *)
 Definition JR (s : fstate) : Prop :=
-  f_bad s = false
-  /\ (f_closed s = true -> existsb is_using (f_users s) = false)
-  /\ (existsb is_ue1 (f_users s) = true -> f_inflight s = 0%Z).
-
-Definition J (s : fstate) : Prop := f_window s = true \/ JR s.
-
-Lemma user_step_window : forall s i, f_window (user_step s i) = f_window s.
-Proof.
-  intros s i. unfold user_step. destruct (nth_error (f_users s) i) as [[]|]; auto;
-  repeat match goal with |- context [if ?b then _ else _] => destruct b end; reflexivity.
-Qed.
-
-Lemma ret_step_window : forall s j, f_window (ret_step s j) = f_window s.
-Proof.
-  intros s j. unfold ret_step. destruct (nth_error (f_rets s) j) as [[]|]; auto;
-  repeat match goal with |- context [if ?b then _ else _] => destruct b end; reflexivity.
-Qed.
+  f_bad s = false /\ (f_closed s = true -> existsb is_using (f_users s) = false).
 
 Lemma using_counted : forall p, is_using p = true -> counted p = true.
 Proof. intros []; cbn; auto. Qed.
 
-Lemma existsb_set_nth_other : forall {A} (P : A -> bool) l i new,
-  P new = false -> existsb P (set_nth l i new) = true ->
-  exists k x, k <> i /\ nth_error l k = Some x /\ P x = true.
-Proof.
-  induction l as [|h t IH]; intros [|i] new Hn H; cbn in *; try discriminate.
-  - rewrite Hn in H. cbn in H. destruct (existsb_witness _ _ H) as (k & x & Hk & Hx).
-    exists (S k), x; auto.
-  - destruct (P h) eqn:E.
-    + exists 0%nat, h; auto.
-    + cbn in H. destruct (IH i new Hn H) as (k & x & Hk & Hx & Hp). exists (S k), x; repeat split; auto.
-Qed.
-
-Lemma JR_with_user : forall s i old new n,
-  JR s -> nth_error (f_users s) i = Some old ->
-  other_at_ue1 (f_users s) (Some i) 0 = false ->
-  (f_closed s = true -> is_using new = false) ->
-  (is_ue1 new = true -> n = 0%Z) ->
-  JR (with_user s i new n false).
-Proof.
-  intros s i old new n (B & C & U) Hn Ho Hc Hu.
-  unfold JR, with_user; cbn [f_bad f_closed f_users f_inflight].
-  repeat split; auto.
-  - intro Hcl. apply existsb_set_nth_false; auto.
-  - intro H. destruct (is_ue1 new) eqn:E; auto.
-    destruct (existsb_set_nth_other is_ue1 _ _ _ E H) as (k & x & Hk & Hx & Hp).
-    pose proof (other_spec_false _ _ _ Ho k x Hx Hp) as Heq. inversion Heq. cbn in *. congruence.
-Qed.
-
-Lemma JR_close : forall s, JR s -> existsb is_using (f_users s) = false -> JR (do_close s).
-Proof.
-  intros s (B & C & U) H. unfold JR, do_close; cbn [f_bad f_closed f_users f_inflight].
-  rewrite B, H, andb_false_r. auto.
-Qed.
-
 Lemma no_using_if_cnt0 : forall us, cntP counted us = 0%Z -> existsb is_using us = false.
 Proof. intros us H. exact (cntP_zero_existsb counted is_using us using_counted H). Qed.
 
-Lemma user_step_J : forall s i, Inv s -> JR s -> f_window s = false ->
-  other_at_ue1 (f_users s) (Some i) 0 = false -> JR (user_step s i).
+Lemma JR_with_user : forall s i new n,
+  JR s -> (f_closed s = true -> is_using new = false) -> JR (with_user s i new n false).
 Proof.
-  intros s i (I1 & I2 & I3 & I4 & I5) JRs W Ho.
-  pose proof JRs as (B & C & U).
+  intros s i new n (B & C) Hc. unfold JR, with_user; cbn [f_bad f_closed f_users].
+  split; auto. intro Hcl. apply existsb_set_nth_false; auto.
+Qed.
+
+Lemma JR_close : forall s,
+  JR s -> existsb is_using (f_users s) = false -> f_retired s = true -> f_inflight s = 0%Z -> JR (do_close s).
+Proof.
+  intros s (B & C) H R Z. unfold JR, do_close; cbn [f_bad f_closed f_users].
+  rewrite B, H, R, Z. cbn. rewrite andb_false_r. auto.
+Qed.
+
+Lemma user_step_J : forall s i, Inv s -> JR s -> JR (user_step s i).
+Proof.
+  intros s i (I1 & I2 & I3 & I4 & I5) JRs. pose proof JRs as (B & C).
   unfold user_step. destruct (nth_error (f_users s) i) as [pc|] eqn:Hn; auto.
   assert (CNT : forall new, cntP counted (set_nth (f_users s) i new)
                             = (f_inflight s - b2z (counted pc) + b2z (counted new))%Z).
   { intro new. rewrite (cntP_set_nth counted _ _ _ _ Hn). lia. }
   rewrite B.
   destruct pc.
-  - destruct (f_retired s); eapply JR_with_user; eauto; cbn; auto; discriminate.
-  - eapply JR_with_user; eauto; cbn; auto; discriminate.
+  - destruct (f_retired s); apply JR_with_user; auto.
+  - apply JR_with_user; auto.
   - destruct (f_retired s) eqn:R.
-    + eapply JR_with_user; eauto; cbn; auto; discriminate.
+    + apply JR_with_user; auto.
     + assert (Cl : f_closed s = false).
       { destruct (f_closed s) eqn:E; auto. discriminate (I2 eq_refl). }
-      rewrite Cl. cbn. eapply JR_with_user; eauto; cbn; try discriminate; try congruence.
-  - destruct (f_inflight s - 1 =? 0)%Z eqn:Z0.
-    + apply JR_close.
-      * eapply JR_with_user; eauto; cbn; auto; discriminate.
+      rewrite Cl. cbn. apply JR_with_user; auto. congruence.
+  - assert (R : f_retired s = true) by (apply I4; eapply existsb_nth; eauto).
+    destruct (f_inflight s - 1 =? 0)%Z eqn:Z0.
+    + apply JR_close; auto.
+      * apply JR_with_user; auto.
       * cbn [with_user f_users]. apply no_using_if_cnt0. rewrite CNT. cbn. lia.
-    + eapply JR_with_user; eauto; cbn; auto; discriminate.
-  - destruct (f_inflight s - 1 =? 0)%Z eqn:Z0.
-    + eapply JR_with_user; eauto; cbn; auto. intros _. lia.
-    + eapply JR_with_user; eauto; cbn; auto; discriminate.
-  - assert (Z0 : f_inflight s = 0%Z) by (apply U; eapply existsb_nth; eauto).
-    destruct (f_retired s) eqn:R.
-    + apply JR_close.
-      * eapply JR_with_user; eauto; cbn; auto; discriminate.
+      * cbn. lia.
+    + apply JR_with_user; auto.
+  - destruct (f_inflight s - 1 =? 0)%Z; apply JR_with_user; auto.
+  - destruct (f_retired s); apply JR_with_user; auto.
+  - assert (R : f_retired s = true) by (apply I4; eapply existsb_nth; eauto).
+    destruct (f_inflight s =? 0)%Z eqn:Z0.
+    + apply JR_close; auto.
+      * apply JR_with_user; auto.
       * cbn [with_user f_users]. apply no_using_if_cnt0. rewrite CNT. cbn. lia.
-    + eapply JR_with_user; eauto; cbn; auto; discriminate.
+      * cbn. lia.
+    + apply JR_with_user; auto.
   - auto.
   - auto.
 Qed.
 
 Lemma ret_step_J : forall s j, Inv s -> JR s -> JR (ret_step s j).
 Proof.
-  intros s j (I1 & I2 & I3 & I4 & I5) JRs. pose proof JRs as (B & C & U).
-  unfold ret_step. destruct (nth_error (f_rets s) j) as [[]|]; auto.
+  intros s j (I1 & I2 & I3 & I4 & I5) JRs. pose proof JRs as (B & C).
+  unfold ret_step. destruct (nth_error (f_rets s) j) as [[]|] eqn:Hn; auto.
+  assert (R : f_retired s = true) by (apply I3; eapply existsb_nth; eauto).
   destruct (f_inflight s =? 0)%Z eqn:Z0.
-  - apply JR_close; [exact JRs|]. cbn [with_ret f_users]. apply no_using_if_cnt0. lia.
+  - apply JR_close; [exact JRs| | exact R | cbn; lia]. cbn [with_ret f_users]. apply no_using_if_cnt0. lia.
   - exact JRs.
 Qed.
 
-Lemma fstep_J : forall s e, Inv s -> J s -> J (fstep s e).
+Lemma fstep_J : forall s e, Inv s -> JR s -> JR (fstep s e).
 Proof.
   intros s e I Js. destruct e; cbn [fstep].
-  - destruct Js as [W|(B & C & U)]; [left; exact W|right].
-    unfold JR; cbn [f_bad f_closed f_users f_inflight]. rewrite !existsb_app1. cbn. rewrite !orb_false_r. auto.
-  - destruct Js as [W|JRs]; [left; exact W|right; exact JRs].
-  - destruct Js as [W|JRs].
-    + left. rewrite user_step_window. cbn. rewrite W. auto.
-    + destruct (f_window s) eqn:W; [left; rewrite user_step_window; cbn; auto|].
-      destruct (other_at_ue1 (f_users s) (Some i) 0) eqn:O.
-      * left. rewrite user_step_window. cbn. rewrite ?W, ?O. auto.
-      * right. apply user_step_J; auto.
-  - destruct Js as [W|JRs].
-    + left. rewrite ret_step_window. cbn. rewrite W. auto.
-    + right. apply ret_step_J; auto.
+  - destruct Js as (B & C). unfold JR; cbn [f_bad f_closed f_users]. rewrite !existsb_app1. cbn. rewrite !orb_false_r. auto.
+  - exact Js.
+  - apply user_step_J; auto.
+  - apply ret_step_J; auto.
 Qed.
 
-Lemma fold_IJ : forall evs s, Inv s -> J s -> Inv (fold_left fstep evs s) /\ J (fold_left fstep evs s).
+Lemma fold_IJ : forall evs s, Inv s -> JR s -> Inv (fold_left fstep evs s) /\ JR (fold_left fstep evs s).
 Proof.
   induction evs; cbn; intros; auto. apply IHevs; [apply fstep_inv|apply fstep_J]; auto.
 Qed.
 
-Lemma C09_forwarder_no_close_in_flight_partial_proof : forall evs,
-  f_window (frun evs) = false -> f_bad (frun evs) = false.
+Lemma C09_forwarder_no_close_in_flight_proof : forall evs, f_bad (frun evs) = false.
 Proof.
-  intros evs W.
-  assert (J0 : J finit) by (right; unfold JR, finit; cbn; repeat split; auto; discriminate).
-  destruct (fold_IJ evs finit inv_init J0) as [_ [W'|(B & _)]]; fold (frun evs) in *; congruence.
-Qed.
-
-Lemma C09_forwarder_no_close_in_flight_refuted_proof : exists evs, f_bad (frun evs) = true.
-Proof.
-  exists [FSpawnU; FSpawnU; FSpawnR; FU 0; FU 0; FU 0; FU 0; FU 1; FU 1; FU 1; FR 0; FR 0; FU 0]%nat.
-  vm_compute. reflexivity.
+  intros evs.
+  assert (J0 : JR finit) by (unfold JR, finit; cbn; split; auto; discriminate).
+  destruct (fold_IJ evs finit inv_init J0) as [_ (B & _)]. exact B.
 Qed.
 
 Print Assumptions C09_forwarder_close_once_proof.
-Print Assumptions C09_forwarder_no_close_in_flight_partial_proof.
+Print Assumptions C09_forwarder_no_close_in_flight_proof.
